@@ -246,3 +246,13 @@ def inline_local(ix, fl, rf, outer, names):
             raise AnalysisError('closure %s has %d returns' % (node.name, len(r)))
         return r[0].value
     return fl.tab.rewrite(rf, f)
+
+
+def need(R, oid, rule, site, stmt, f, patterns, binding=None, loc=None):
+    """Obligation: every structural pattern (metavariables V_*) occurs in
+    function f with one consistent naming.  Returns the binding or None."""
+    from .pattern import find
+    b, missing = find(f.node, patterns, binding)
+    R.check(oid, rule, site, stmt, b is not None, key='; '.join(m[:80] for m in missing),
+            detail='no statement of the expected shape: %s' % missing, loc=loc or f.loc())
+    return b
